@@ -419,7 +419,7 @@ class C08(Config):
               "From V.C08 Require Import Sql Model Spec Corr Wf.\n"
               "Local Open Scope Z_scope.")
     bin = "c08"
-    n_tags = 24
+    n_tags = 22
     classes = {}
     shard_size = 120
     rule = ("wallet histories on the real SQLite backend (receipts into 2 accounts x 2 shielded pools, external spends, "
